@@ -1477,6 +1477,17 @@ func (ex *Exec) execRange(st *State, s *ast.RangeStmt) Outcomes {
 		}
 		return ex.runLoop(st, ls)
 	case *types.Map:
+		if sweepMode && ex.probeDepth == 0 && len(ex.inlineStack) == 0 && !ex.frameProbe {
+			// C19: the effect of a loop over a map must not depend on the iteration order. Decided
+			// structurally: the loop only collects keys (or a field of the values) into a slice that
+			// is sorted by the next statement; anything else is reported.
+			okOrder, why := ex.mapRangeOrderFree(s)
+			goal := True
+			if !okOrder {
+				goal = False
+			}
+			ex.obligNoAssume(st, "map-order", s, fmt.Sprintf("loop%d:%s", ord, why), goal)
+		}
 		m := ex.eval(st, s.X)
 		ks := mapKeySort(xt)
 		vname := fmt.Sprintf("$visited%d", ord)
@@ -1877,6 +1888,32 @@ func (ex *Exec) varCandidates(st, entrySt *State, ls loopShape) []autoCand {
 		if _, ok := st.vars[v]; !ok {
 			continue
 		}
+		if ex.pre != nil {
+			// every reference held in the variable (struct components included) is nil or was
+			// allocated during this call
+			cs := flatten(v.Type())
+			var idx []int
+			for i, c := range cs {
+				switch c.Kind {
+				case CRef, CArrID, CMap:
+					idx = append(idx, i)
+				}
+			}
+			if _, isSl := v.Type().Underlying().(*types.Slice); !isSl && len(idx) > 0 && len(cs) == len(ev.C) {
+				c0 := ex.pre.ctr
+				needEntry = append(needEntry, autoCand{name: "freshrefs:" + v.Name(), at: func(s *State) *Term {
+					x, ok := s.vars[v]
+					if !ok || len(x.C) != len(cs) {
+						return True
+					}
+					var all []*Term
+					for _, i := range idx {
+						all = append(all, Or(Eq(x.C[i], IntLit(0)), Ge(x.C[i], c0)))
+					}
+					return And(all...)
+				}})
+			}
+		}
 		switch u := v.Type().Underlying().(type) {
 		case *types.Pointer, *types.Map:
 			_ = u
@@ -1910,6 +1947,18 @@ func (ex *Exec) varCandidates(st, entrySt *State, ls loopShape) []autoCand {
 						return True
 					}
 					return Or(Eq(x.C[0], IntLit(0)), Ge(x.C[0], c0))
+				}})
+			}
+			{
+				// the backing array is the one the loop was entered with, or was allocated during the loop
+				a0 := ev.C[0]
+				ec := entrySt.ctr
+				out = append(out, autoCand{name: "loopfresh:" + v.Name(), at: func(s *State) *Term {
+					x, ok := s.vars[v]
+					if !ok {
+						return True
+					}
+					return Or(Eq(x.C[0], a0), Ge(x.C[0], ec))
 				}})
 			}
 			e0 := ev.C[2]
@@ -2144,4 +2193,120 @@ func (ex *Exec) autoVariant(ls loopShape) func(s *State) (*Term, bool) {
 		}
 		return Add(Sub(a, b), IntLit(extra)), true
 	}
+}
+
+// mapRangeOrderFree: the map-range statement s of the current function (a) has a body consisting
+// of the single statement `x = append(x, e)` where x is a local slice and e mentions only the range
+// variables, and (b) is directly followed by sort.Strings(x) / sort.Ints(x): the sorted
+// sequence of a multiset is unique, so what follows does not depend on the iteration order; or
+// (c) has a body that only stores into another map under the range key (m2[k] = f(k, v)) or deletes
+// from one: map contents do not record insertion order.
+func (ex *Exec) mapRangeOrderFree(s *ast.RangeStmt) (bool, string) {
+	if ex.curFn == nil || ex.curFn.Body == nil {
+		return false, "unknown-context"
+	}
+	rangeVars := map[types.Object]bool{}
+	for _, e := range []ast.Expr{s.Key, s.Value} {
+		if id, ok := e.(*ast.Ident); ok && id.Name != "_" {
+			if o := ex.P.Info.Defs[id]; o != nil {
+				rangeVars[o] = true
+			} else if o := ex.P.Info.Uses[id]; o != nil {
+				rangeVars[o] = true
+			}
+		}
+	}
+	onlyRangeVars := func(e ast.Expr) bool {
+		ok := true
+		ast.Inspect(e, func(n ast.Node) bool {
+			if id, isId := n.(*ast.Ident); isId {
+				if v, isVar := ex.P.Info.Uses[id].(*types.Var); isVar && !v.IsField() && !rangeVars[v] {
+					ok = false
+				}
+			}
+			if _, isCall := n.(*ast.CallExpr); isCall {
+				ok = false
+			}
+			return ok
+		})
+		return ok
+	}
+	if len(s.Body.List) == 0 {
+		return true, "empty-body"
+	}
+	// (c) stores into a map under the range key only
+	allMapStores := true
+	for _, st := range s.Body.List {
+		switch x := st.(type) {
+		case *ast.AssignStmt:
+			if len(x.Lhs) != 1 || len(x.Rhs) != 1 {
+				allMapStores = false
+				break
+			}
+			ix, ok := unparen(x.Lhs[0]).(*ast.IndexExpr)
+			if !ok {
+				allMapStores = false
+				break
+			}
+			if _, isMap := ex.typeOf(ix.X).Underlying().(*types.Map); !isMap || !onlyRangeVars(ix.Index) || !onlyRangeVars(x.Rhs[0]) {
+				allMapStores = false
+			}
+		default:
+			allMapStores = false
+		}
+	}
+	if allMapStores {
+		return true, "stores-under-range-key"
+	}
+	if len(s.Body.List) != 1 {
+		return false, "body-depends-on-iteration-order"
+	}
+	as, ok := s.Body.List[0].(*ast.AssignStmt)
+	if !ok || len(as.Lhs) != 1 || len(as.Rhs) != 1 {
+		return false, "body-depends-on-iteration-order"
+	}
+	lhs, ok := unparen(as.Lhs[0]).(*ast.Ident)
+	if !ok {
+		return false, "body-depends-on-iteration-order"
+	}
+	call, ok := unparen(as.Rhs[0]).(*ast.CallExpr)
+	if !ok || len(call.Args) != 2 || call.Ellipsis.IsValid() {
+		return false, "body-depends-on-iteration-order"
+	}
+	if fn, ok := unparen(call.Fun).(*ast.Ident); !ok || fn.Name != "append" {
+		return false, "body-depends-on-iteration-order"
+	}
+	if a0, ok := unparen(call.Args[0]).(*ast.Ident); !ok || ex.P.Info.Uses[a0] != ex.P.Info.Uses[lhs] {
+		return false, "body-depends-on-iteration-order"
+	}
+	if !onlyRangeVars(call.Args[1]) {
+		return false, "body-depends-on-iteration-order"
+	}
+	acc := ex.P.Info.Uses[lhs]
+	// (b) the statement after the loop sorts the accumulator
+	var next ast.Stmt
+	ast.Inspect(ex.curFn.Body, func(n ast.Node) bool {
+		var list []ast.Stmt
+		switch b := n.(type) {
+		case *ast.BlockStmt:
+			list = b.List
+		case *ast.CaseClause:
+			list = b.Body
+		}
+		for i, st := range list {
+			if st == ast.Stmt(s) && i+1 < len(list) {
+				next = list[i+1]
+			}
+		}
+		return next == nil
+	})
+	if es, ok := next.(*ast.ExprStmt); ok {
+		if c, ok := es.X.(*ast.CallExpr); ok && len(c.Args) == 1 {
+			if ex.isPkgFunc(c.Fun, "sort", "Strings") || ex.isPkgFunc(c.Fun, "sort", "Ints") {
+				if a, ok := unparen(c.Args[0]).(*ast.Ident); ok && ex.P.Info.Uses[a] == acc {
+					return true, "collect-then-sort"
+				}
+			}
+		}
+	}
+	return false, "collected-keys-not-sorted-before-use"
 }
